@@ -78,14 +78,23 @@ func Load(path string, initAct string) (*Graph, error) {
 			}
 			continue
 		}
-		pre, _ := rec["s"].(M)
-		post, _ := rec["t"].(M)
-		pk, tk := Key(pre), Key(post)
-		if _, ok := g.States[pk]; !ok {
-			g.States[pk] = pre
-		}
-		if _, ok := g.States[tk]; !ok {
-			g.States[tk] = post
+		var pk, tk uint64
+		if p, ok := rec["post"].(M); ok {
+			// compact format: s / t are state ids, the post-state is printed in full
+			pk, tk = Key(rec["s"]), Key(rec["t"])
+			if _, ok := g.States[tk]; !ok {
+				g.States[tk] = p
+			}
+		} else {
+			pre, _ := rec["s"].(M)
+			post, _ := rec["t"].(M)
+			pk, tk = Key(pre), Key(post)
+			if _, ok := g.States[pk]; !ok {
+				g.States[pk] = pre
+			}
+			if _, ok := g.States[tk]; !ok {
+				g.States[tk] = post
+			}
 		}
 		e := &Edge{ID: len(g.Edges), From: pk, To: tk, Act: a}
 		g.Edges = append(g.Edges, e)
